@@ -10,6 +10,7 @@ import IrVerif.Lemmas.CloneSim
 import IrVerif.Lemmas.CloneSer
 import IrVerif.Lemmas.CloneScope
 import IrVerif.Lemmas.CloneResidue
+import IrVerif.Lemmas.CloneTotal
 namespace IrVerif.Clone
 
 /-! ### what "the objects of a clone" are -/
@@ -1297,5 +1298,114 @@ example : devLocalW exSharded = true ∧ devLocalW exWorld = true := by decide +
 example : isOk (run (graphClone 4 false 0) exSharded).1 = true ∧
     devOfNodesNamed (run (graphClone 4 false 0) exSharded).2 "n" = [[some 3, some 9], [some 14, some 19]] := by
   decide +kernel
+
+/-! ### C13_clone_succeeds / C13_clone_raises_iff: graph-level progress (deepening round 3)
+
+`cloneVerdict fuel allow w g` (Model/Clone.lean, `wGraph`) is a decidable walk over the SOURCE heap
+in the cloner's traversal order with four lists as its only state: the values bound so far, the
+node outputs still pending, the bound values a finished graph owns, the bound values a node
+produces.  It is the decidable predicate "well-formed, def-before-use sorted, well-scoped": it
+answers `ok` when every pointer has the right kind, every node input is bound when its node is
+reached (or, with `allow_outer_scope_values`, is not a pending output), every graph output is
+bound, and the `Graph(...)` constructor accepts the lists (no input / output / initializer already
+owned by a finished graph, no input or initializer produced by a node, initializers named and not
+named `""`); `err e` with the exact error otherwise; `irregular` (no claim) for a dangling pointer, a
+node output that is already bound, initializer names that are not pairwise different.  The run
+evaluates it on every generated case and compares it with the real outcome. -/
+
+/-- **C13_clone_succeeds**.  If the walker accepts the source graph, `Graph.clone` /
+    `GraphView.clone` returns a clone — for every heap, both settings of
+    `allow_outer_scope_values`, every nesting depth within the fuel. -/
+theorem C13_clone_succeeds {w : World} {fuel : Nat} {allow : Bool} {g : Nat} {A : Sc}
+    (h : cloneVerdict fuel allow w g = .ok A) :
+    ∃ g' w', run (graphClone fuel allow g) w = (.ok g', w') := by
+  have := Total.graphClone_verdict fuel allow w g
+  rw [h] at this
+  obtain ⟨g', s', _, h2, _⟩ := this
+  exact ⟨g', s'.w, h2⟩
+
+/-- **C13_clone_error_exact**.  If the walker answers `err e`, the clone ends with exactly the
+    error `e` (the two clear errors of the node-input loop, "graph output is not in the value map",
+    the ownership / naming errors of the `Graph(...)` constructor; also the model's `unsupported`
+    and `fuel` answers). -/
+theorem C13_clone_error_exact {w : World} {fuel : Nat} {allow : Bool} {g : Nat} {e : Err}
+    (h : cloneVerdict fuel allow w g = .err e) :
+    (run (graphClone fuel allow g) w).1 = .error e := by
+  have := Total.graphClone_verdict fuel allow w g
+  rw [h] at this
+  exact this
+
+/-- **C13_clone_raises_iff**.  Whenever the walker makes a claim (its answer is not `irregular`),
+    `Graph.clone` / `GraphView.clone` raises if and only if the walker answers `err (raised ..)`,
+    and then with that very error: the exact graph-level characterisation of when cloning raises
+    (`C13_raises_iff_inputs` is its node-input-loop instance). -/
+theorem C13_clone_raises_iff {w : World} {fuel : Nat} {allow : Bool} {g : Nat}
+    (hreg : ∀ why, cloneVerdict fuel allow w g ≠ .irregular why) (why : String) :
+    (∃ w', run (graphClone fuel allow g) w = (.error (.raised why), w')) ↔
+      cloneVerdict fuel allow w g = .err (.raised why) := by
+  have hv := Total.graphClone_verdict fuel allow w g
+  cases hc : cloneVerdict fuel allow w g with
+  | ok A =>
+    rw [hc] at hv
+    obtain ⟨g', s', _, h2, _⟩ := hv
+    constructor
+    · rintro ⟨w', hw'⟩; rw [h2] at hw'; cases hw'
+    · intro h; cases h
+  | err e =>
+    rw [hc] at hv
+    simp only at hv
+    constructor
+    · rintro ⟨w', hw'⟩
+      rw [hw'] at hv
+      simp only at hv
+      cases hv
+      rfl
+    · intro h
+      cases h
+      rcases hr : run (graphClone fuel allow g) w with ⟨x, w'⟩
+      rw [hr] at hv
+      simp only at hv
+      exact ⟨w', by rw [hv]⟩
+  | irregular why' => exact absurd hc (hreg why')
+
+/-- **C13_value_map_bijection**.  When the walker accepts the source graph, the cloner's value map
+    at the end of `clone_graph` (`s'.vm`, source value ↦ clone) is a bijection between the values
+    the cloned region defines and the value objects the cloner created: its keys are exactly the
+    walker's bound list `A.bound` (the graph inputs, initializers and node outputs of the graph
+    and of its nested graphs, in traversal order) without repetition; it is injective; every pair
+    maps a value of the source heap to a NEW value cell; and every value cell created by the clone
+    is the image of a pair.  (By `C13_fresh` every value the clone owns is a new value cell, hence in
+    the range.) -/
+theorem C13_value_map_bijection {w : World} {fuel : Nat} {allow : Bool} {g : Nat} {A : Sc}
+    (h : cloneVerdict fuel allow w g = .ok A) :
+    ∃ g' s', cloneGraph allow fuel g { w := w } = (.ok g', s') ∧
+      run (graphClone fuel allow g) w = (.ok g', s'.w) ∧
+      s'.vm.map (·.1) = A.bound ∧ A.bound.Nodup ∧
+      (∀ p ∈ s'.vm, ∀ q ∈ s'.vm, p.2 = q.2 → p = q) ∧
+      (∀ p ∈ s'.vm, (∃ vs, w[p.1]? = some (.val vs)) ∧ w.length ≤ p.2 ∧
+        ∃ vs', s'.w[p.2]? = some (.val vs')) ∧
+      (∀ (i : Nat) (vs : ValueS), w.length ≤ i → s'.w[i]? = some (.val vs) → ∃ p ∈ s'.vm, p.2 = i) := by
+  have := Total.graphClone_verdict fuel allow w g
+  rw [h] at this
+  obtain ⟨g', s', h1, h2, hT⟩ := this
+  refine ⟨g', s', h1, h2, hT.keys, hT.nodup, hT.inj, ?_, hT.onto⟩
+  intro p hp
+  obtain ⟨a, vs0, vs', b, c, _⟩ := hT.vals p hp
+  exact ⟨⟨vs0, b⟩, a, vs', c⟩
+
+def verdictKind : WRes Sc → String
+  | .ok _ => "ok"
+  | .err (.raised why) => "raised: " ++ why
+  | .err (.unsupported why) => "unsupported: " ++ why
+  | .err .fuel => "fuel"
+  | .irregular why => "irregular: " ++ why
+
+/-- non-vacuity: the walker accepts the example graphs, rejects the unsorted one and the uncovered
+    capture with the cloner's own messages -/
+example : verdictKind (cloneVerdict 4 false exWorld 0) = "ok" := by decide +kernel
+example : verdictKind (cloneVerdict 4 true exCapture 0) = "ok" := by decide +kernel
+example : verdictKind (cloneVerdict 4 false exCapture 0) = "raised: outer-scope value" := by decide +kernel
+example : verdictKind (cloneVerdict 4 true exUnsorted 0) =
+    "raised: value defined by a later node of the graph being cloned" := by decide +kernel
 
 end IrVerif.Clone
